@@ -93,7 +93,7 @@ def oracle(case, rec):
         return K >= 2
     scale = np.abs(x).max()
     err = np.abs(imf.sum(axis=1) - x).max()
-    if err > (1e-9 if xin.dtype != np.float32 else 1e-6) * scale + 1e-300:
+    if err > 1e-9 * scale + 1e-300:
         path = 'after-extrema-vanished' if 'extrema-vanished' in exits else 'other'
         raise Violation('C01/sift/components-do-not-sum-to-input/' + path,
                         'max error %.3g (scale %.3g), K=%d, exits=%r, opts=%r, n=%d' % (err, scale, K, exits, opts, x.size))
